@@ -175,7 +175,7 @@ theorem coalesce_fold (m : Tab) (hm : (keys m).Nodup) : ∀ (l : List Str) (st),
 
 theorem coalesce_inv (m : Tab) (hm : (keys m).Nodup) (ks : List Str) (hks : ks.Perm (keys m)) :
     CInv m ((sortn ks).foldl coalesceStep (m, [])) [] := by
-  have hs : (sortn ks).Perm ks := stableSort_perm _ _
+  have hs : (sortn ks).Perm ks := sortn_perm _
   apply coalesce_fold m hm
   · exact (hs.trans hks).nodup_iff.mpr hm
   · refine ⟨List.Sublist.refl _, fun e he => Or.inl he, ?_, by simp, by simp, by simp, by simp [printed], by simp⟩
